@@ -108,6 +108,7 @@ type Path struct {
 	tagSigned map[string]bool
 	tagOrd  []string
 	ndec    int
+	runes   map[*Term]runeRec // first byte term -> symbolic rune it encodes
 	notes   []string
 	res     *HarnessResult
 }
@@ -444,6 +445,45 @@ func (p *Path) concretizeNew(t *Term, excl []uint64) uint64 {
 	return v
 }
 
+// EnumRange enumerates a fresh variable x (symbol sym) constrained only to
+// lo..hi: every value is feasible, so the siblings are created without solver
+// queries and without exclusion lists.
+func (p *Path) EnumRange(x *Term, sym string, lo, hi uint64) uint64 {
+	p.countDecision()
+	tt := p.tt
+	if p.pos < len(p.prefix) {
+		d := p.prefix[p.pos]
+		p.pos++
+		if d.Kind != 1 {
+			panic(engineAbort{"unsupported", "decision trace diverged (expected value)"})
+		}
+		p.trace = append(p.trace, d)
+		p.addPC(tt.Eq(x, tt.Const(x.W, d.Val)))
+		return d.Val
+	}
+	for v := hi; v > lo; v-- {
+		var mc Model
+		if p.model != nil {
+			mc = make(Model, len(p.model)+1)
+			for kk, vv := range p.model {
+				mc[kk] = vv
+			}
+			mc[sym] = v
+		}
+		p.ex.push(&WorkItem{Prefix: cloneTrace(p.trace, Decision{Kind: 1, Val: v}), Model: mc})
+		if v == 0 {
+			break
+		}
+	}
+	if p.model != nil {
+		p.model[sym] = lo
+		p.memo = nil
+	}
+	p.trace = append(p.trace, Decision{Kind: 1, Val: lo})
+	p.addPC(tt.Eq(x, tt.Const(x.W, lo)))
+	return lo
+}
+
 // Choose picks one of n alternatives (scheduler / explicit nondeterminism), exploring all.
 func (p *Path) Choose(n int) int {
 	if n <= 1 {
@@ -578,13 +618,17 @@ func (p *Path) knownFor(id string) ([]KnownFinding, []*Term) {
 
 // Fail records violations of assertion id under the extra condition bad
 // (pc ∧ bad is the violating region).  detail describes the failure.
-func (p *Path) Fail(id string, bad *Term, detail string, where string) {
+func (p *Path) Fail(id string, bad *Term, detail string, where string) (violated bool, known *Term) {
 	tt := p.tt
 	if bad.IsFalse() {
-		return
+		return false, nil
 	}
 	kfs, preds := p.knownFor(id)
 	unlisted := bad
+	known = tt.Bool(false)
+	for _, pr := range preds {
+		known = tt.Or(known, pr)
+	}
 	for i, pr := range preds {
 		// witness for the known finding (one per finding per run is enough)
 		p.res.mu.Lock()
@@ -606,7 +650,7 @@ func (p *Path) Fail(id string, bad *Term, detail string, where string) {
 		unlisted = tt.And(unlisted, tt.Not(pr))
 	}
 	if unlisted.IsFalse() {
-		return
+		return false, known
 	}
 	var m Model
 	if len(preds) == 0 && bad.IsTrue() {
@@ -617,7 +661,7 @@ func (p *Path) Fail(id string, bad *Term, detail string, where string) {
 	} else {
 		r, mm := p.checkWith(unlisted)
 		if r != Sat {
-			return
+			return false, known
 		}
 		m = mm
 	}
@@ -632,6 +676,7 @@ func (p *Path) Fail(id string, bad *Term, detail string, where string) {
 		p.res.Violations = append(p.res.Violations, v)
 	}
 	p.res.mu.Unlock()
+	return true, known
 }
 
 // Assert checks cond (bool term) on this path.
@@ -642,12 +687,20 @@ func (p *Path) Assert(cond *Term, id string, where string) {
 	if cond.IsTrue() {
 		return
 	}
-	p.Fail(id, p.tt.Not(cond), "assertion failed", where)
-	// continue on the part of the path where the assertion holds
+	violated, known := p.Fail(id, p.tt.Not(cond), "assertion failed", where)
+	if violated {
+		// an unlisted violation is reported for this path; nothing more to learn from it
+		panic(engineAbort{"assume", "path ends at a reported violation"})
+	}
 	if cond.IsFalse() {
 		panic(engineAbort{"assume", "assertion failed on the whole path"})
 	}
-	p.addPC(cond)
+	if known == nil || known.IsFalse() {
+		// the assertion holds on the whole path: pc already implies cond
+		return
+	}
+	// continue outside the regions of the known findings (where the assertion holds)
+	p.addPC(p.tt.Not(known))
 	if p.model == nil {
 		r, m := p.checkWith()
 		switch r {
